@@ -30,7 +30,10 @@ AUG_SELF = ["o.x {a} {k}", "o.x {a} v", "o . x {a} {k}", "o.x{a}{k}", "o.x {a} o
             # the line reads the attribute once more, before or after the assignment
             "if o.x > -99: o.x {a} {k}", "o.x {a} {k}; v = o.x", "v = o.x; o.x {a} {k}",
             # one statement written over two lines
-            "o.x \\\n    {a} {k}", "o.x {a} (\n    {k})", "(o\n  .x) {a} {k}"]
+            "o.x \\\n    {a} {k}", "o.x {a} (\n    {k})", "(o\n  .x) {a} {k}",
+            # the right-hand side calls a helper that makes an augmented assignment of its own to
+            # the attribute (of the same object, of another instance)
+            "o.x {a} bump(o)", "o.x {a} bump(o2)", "o.x {a} bump(o) + bump(o2)", "v = bump(o)"]
 # the attribute looked up on the class instead of an instance
 CLASSREAD = ["v = K.x", "v = getattr(K, 'x')", "v = hasattr(K, 'x')", "v = type(o).x", "v = K.x {c} {k}",
              "v = [n for n in dir(K) if getattr(K, n, None) is None]"]
@@ -118,7 +121,7 @@ class C28(Prop):
           "assignments whose right side reads the attribute again (o.x += o.x, o.x += o2.x for a second "
           "instance of the class, o.x += p.x / p.x += o.x for an instance p of another class that declares an "
           "attribute of the same name, h.x += o.x for a plain object h whose ordinary attribute has that name), "
-          "lines that read the attribute a second time before or after the assignment, "
+          "lines that read the attribute a second time before or after the assignment, right-hand sides that call a helper which itself makes an augmented assignment to the attribute (nested), "
           "the same kinds of statement run through exec()/eval() (code without source lines, as at the interactive prompt), "
           "and reads of the attribute through the class (K.x, getattr(K, 'x'), dir), and statements that end in an exception "
           "(a read inside an expression that raises, an assignment or augmented assignment whose right-hand side raises; the harness catches the exception). The "
@@ -194,7 +197,7 @@ class C28(Prop):
       if case.get("big"):
         # more than 128 names ahead of the attribute's: its bytecode argument needs an extension
         pre = "  if w is None:\n    (%s)\n" % ", ".join("vf_n%d" % i for i in range(140))
-      src = "def run(o, v, w, h, o2, K, p):\n%s%s\n  return None\n" % (pre, body)
+      src = "def bump(q):\n  q.x += 1\n  return 1\n\ndef run(o, v, w, h, o2, K, p):\n%s%s\n  return None\n" % (pre, body)
       with open(path, "w") as f:
         f.write(src)
       linecache.checkcache(path)
